@@ -367,6 +367,7 @@ type world struct {
 	cbOps    []*hop
 	cbReads  atomic.Uint64
 	panicked atomic.Bool
+	park     atomic.Pointer[func()] // forced schedule: run once inside the next access callback
 }
 
 var debugCmds = []debug.Command{debug.IterateCommand, debug.IterateKeysCommand, debug.ClearCommand, debug.GetCommand, debug.SetCommand,
@@ -384,6 +385,9 @@ func (w *world) expect(kind string) {
 // callback is the access callback handed to debug.New.
 func (w *world) callback(cmd debug.Command, _ ...[]byte) {
 	n := w.cb.Add(1)
+	if f := w.park.Swap(nil); f != nil {
+		(*f)()
+	}
 	for i, c := range debugCmds {
 		if c == cmd {
 			w.cbBy[i].Add(1)
@@ -410,17 +414,17 @@ func (w *world) callback(cmd debug.Command, _ ...[]byte) {
 	}
 }
 
-// checkCallbacks: the oracle of the debug wrapper's contract (independent of Lean): per command, the callback ran exactly as
-// often as calls of that command were issued and pass the filter.
+// checkCallbacks measures the debug wrapper's contract - per command, the callback ran exactly as often as calls of that
+// command were issued and pass the filter - for the evidence (histogram `debug-callback-count-mismatch`, expected 0: it is
+// what makes "a call through debug = [callback, call]" of the protocol model an observed fact).  It is NOT a finding: the
+// property statement says nothing about the callback.
 func (w *world) checkCallbacks(r *hx.Run, desc string) {
 	if !w.dbg || w.panicked.Load() {
 		return
 	}
-	names := []string{"Iterate", "IterateKeys", "Clear", "Get", "Set", "Has", "Delete", "DeletePrefix"}
 	for i := range debugCmds {
 		if got, want := w.cbBy[i].Load(), w.expBy[i].Load(); got != want {
-			r.Fail("debug-callback", fmt.Sprintf("debug wrapper (%s, filter %d): the access callback ran %d times for %s, %d calls of it were issued",
-				desc, w.filter, got, names[i], want), map[string]string{"oracle": "debug-callback", "command": names[i]})
+			r.Count("debug-callback-count-mismatch")
 		}
 	}
 	r.CountN("debug-callbacks-expected", func() (n int) {
@@ -1359,6 +1363,91 @@ func runSnapshot(rng *hx.Rng, r *hx.Run) result {
 	return res
 }
 
+// runCallbackPark: forced schedule on a store behind the debug wrapper.  A call is parked inside its access callback - i.e.
+// between the invocation of the wrapped-store call and the wrapped call itself, where the protocol model has the response of
+// `callback` - while other goroutines use the SAME view object and the other views (reads, writes, a batch, an iteration, a
+// new view) and return; then the parked call continues.  Nothing may be held during the callback (watchdog), and the whole
+// history - the parked call's window spans all the others - must be linearizable.
+func runCallbackPark(rng *hx.Rng, r *hx.Run) result {
+	wrap := 2 + rng.Intn(3)
+	w := newWorld(rng, wrap)
+	res := result{desc: fmt.Sprintf("cbpark wrap=%d filter=%d", wrap, w.filter)}
+	for i, fk := range universe {
+		c := call{kind: "set", view: 0, key: fk, val: string([]byte{0xe0, byte(i)})}
+		res.ops = append(res.ops, w.exec(&c, nil)...)
+	}
+	view := rng.Intn(len(w.views))
+	ks := w.keysOf(view)
+	parked := call{kind: hx.Pick(rng, []string{"set", "del", "delp", "clear", "get", "has", "iter", "iterk", "commit"}), view: view, key: hx.Pick(rng, ks),
+		val: "\xdd\x01", dirTok: "fwd", g: 1}
+	if parked.kind == "commit" {
+		parked.writes = []call{{kind: "set", key: hx.Pick(rng, ks), val: "\xdd\x02"}, {kind: "del", key: hx.Pick(rng, ks)}}
+	}
+	others := rng.Range(1, 3)
+	plans := make([][]call, others)
+	for i := range plans {
+		plans[i] = genPlan(rng, w, i+1, rng.Range(3, 6), false)
+		for j := range plans[i] {
+			if k := plans[i][j].kind; plans[i][j].view >= 0 && k != "mkview" && rng.Bool() {
+				// through the very view object of the parked call (a mkview call keeps its parent: its argument is relative to it)
+				plans[i][j].view, plans[i][j].realm = view, w.views[view].realm
+				if k != "flush" && k != "clear" {
+					plans[i][j].key = hx.Pick(rng, ks)
+					for wi := range plans[i][j].writes {
+						plans[i][j].writes[wi].key = hx.Pick(rng, ks)
+					}
+				}
+			}
+		}
+	}
+	orecs := make([][]*hop, others)
+	entered := false
+	hook := func() {
+		entered = true
+		var wg sync.WaitGroup
+		for i := 0; i < others; i++ {
+			wg.Add(1)
+			go func(i int) {
+				defer wg.Done()
+				for j := range plans[i] {
+					orecs[i] = append(orecs[i], w.exec(&plans[i][j], nil)...)
+				}
+			}(i)
+		}
+		wg.Wait() // the others must be able to finish while this call sits in its callback
+	}
+	w.park.Store(&hook) // taken by the first access callback that runs (none if the wrapper's filter hides the command)
+	finished := make(chan struct{})
+	var pops []*hop
+	go func() { defer close(finished); pops = w.exec(&parked, nil) }()
+	select {
+	case <-finished:
+	case <-time.After(20 * time.Second):
+		res.timedOut = true
+		res.plan = append([]string{"x cbpark " + res.desc + ": a " + parked.kind + " through view " + strconv.Itoa(view) +
+			" sits in its debug access callback while these plans run (some call never returned)"}, planLines(plans)...)
+
+		return res
+	}
+	if w.park.Swap(nil) != nil {
+		hook() // the filter hid the command, no callback ran: the others run now
+		entered = false
+	}
+	res.ops = append(res.ops, pops...)
+	for _, rs := range orecs {
+		res.ops = append(res.ops, rs...)
+	}
+	res.ops = append(res.ops, w.cbOps...)
+	c := call{kind: "iter", view: 0, key: "", dirTok: "fwd"}
+	res.ops = append(res.ops, w.exec(&c, nil)...)
+	r.Count("scenario:cbpark")
+	if entered {
+		r.Count("cbpark-parked-in-callback:" + parked.kind)
+	}
+
+	return res
+}
+
 func emit(r *hx.Run, sub uint64, res result) {
 	ops := res.ops
 	sort.Slice(ops, func(i, j int) bool { return ops[i].inv < ops[j].inv })
@@ -1499,7 +1588,7 @@ func main() {
 		if p%2 == 1 {
 			wrap = rng.Intn(nWraps)
 		}
-		if died, oracle := runProbe(r, sub, genProbePlan(rng, wrap, rng.Range(6, 12), 24, rounds), p); died {
+		if died, oracle := runProbe(r, sub, genProbePlan(rng, wrap, rng.Range(6, 12), 24, rounds, p%4 == 3), p); died {
 			if oracle != "deadlock" {
 				r.Finish() // a fatal runtime error / race report / panic: the in-process scenarios would die the same way
 
@@ -1512,6 +1601,20 @@ func main() {
 			break
 		}
 	}
+	// quick tier: two more plans run by the -race build of this harness (the thorough tier is a -race build as a whole), so that
+	// a pure data race - no wrong answer, no crash - yields a failing input here too
+	if r.Tier != "thorough" && os.Getenv("C05_RACE_BIN") != "" && nProbes > 0 {
+		for p := 0; p < 2; p++ {
+			rng, sub := r.Rng.Fork()
+			plan := genProbePlan(rng, rng.Intn(nWraps), rng.Range(6, 12), 24, 150, p == 1)
+			plan[0] += " race=1"
+			if died, oracle := runProbe(r, sub, plan, 10+p); died && oracle != "deadlock" {
+				r.Finish()
+
+				return
+			}
+		}
+	}
 	n := 2000 * r.Scale // thorough: 40 000 histories (60 000 took 19.8 min on the loaded machine once the probe, the fresh-view scenario and the flag calls were added)
 	hangs := 0
 	largeEvery, freshEvery := 50, 50
@@ -1521,6 +1624,7 @@ func main() {
 	for i := 0; i < n && hangs < 2; i++ {
 		rng, sub := r.Rng.Fork()
 		var res result
+		t0 := time.Now()
 		if i%8 == 7 {
 			res = runSnapshot(rng, r)
 		} else if i%50 == 3 {
@@ -1537,11 +1641,20 @@ func main() {
 			res = runCommitClose(rng, r)
 		} else if i%freshEvery == 43 {
 			res = runFreshView(rng, r)
+		} else if i%25 == 19 {
+			res = runCallbackPark(rng, r)
 		} else {
 			res = runStress(rng, r)
 		}
 		if res.timedOut {
 			hangs++ // the hung goroutines are still there: after the second hang nothing that follows would be reliable
+		}
+		// how far the slowest instance of each scenario family stays below its 20 s watchdog (load tolerance, for the evidence)
+		if f := strings.Fields(res.desc); len(f) > 0 {
+			k := "max_ms_" + f[0]
+			if ms, _ := r.Extra[k].(int); int(time.Since(t0).Milliseconds()) > ms {
+				r.Extra[k] = int(time.Since(t0).Milliseconds())
+			}
 		}
 		emit(r, sub, res)
 	}
